@@ -899,7 +899,26 @@ type line struct {
 // Scripted histories around a live Calico node that is not a Kubernetes node (cached "" by the syncer) owning a tunnel
 // address and blocks: nothing of it may be released; variant 1: the Calico node is gone from the datastore, the cache
 // lags (release is legitimate); variant 2: an empty second block past the grace period (releaseUnusedBlocks path).
+// Two empty blocks of one node, one already seen empty for longer than the grace period, the other not yet marked:
+// whether the second gets its "seen empty" time in the sync that releases the first depends on the map order of
+// emptyBlocks (the block count is tested before markEmpty).  Both outcomes must be reproduced by the model.
+func emptyOrderCase(k int) line {
+	g := 900
+	evs := []event{{Kind: "knode", N: 1, Present: true}, {Kind: "cnodeapi", N: 1, Present: true}, {Kind: "cnodesync", N: 1, Present: true},
+		{Kind: "block", N: 1, Block: &blockT{Aff: 1, Allocs: []ballocT{{Ord: 0, Handle: 9, At: attrsT{Node: 1}, Seq: 1}}}},
+		{Kind: "block", N: 3, Block: &blockT{Aff: 1}},
+		{Kind: "sync"},
+		{Kind: "block", N: 1},
+		{Kind: "block", N: 2, Block: &blockT{Aff: 1}},
+		{Kind: "tick", D: 901},
+		{Kind: "sync"}, {Kind: "tick", D: 901}, {Kind: "sync"}, {Kind: "full"}, {Kind: "sync"}}
+	return execute(uint64(k), &g, evs, map[string]bool{"scenario": true, "empty-block-order": true, "grace:900": true})
+}
+
 func scenarioCase(k int) line {
+	if k >= 5 {
+		return emptyOrderCase(k)
+	}
 	if k >= 3 {
 		return rolloverCase(k)
 	}
@@ -1185,14 +1204,14 @@ func main() {
 			if err := enc.Encode(map[string]any{"batchcut": bc}); err != nil {
 				panic(err)
 			}
-			for k := 0; k < 5 && k < *n; k++ {
+			for k := 0; k < 8 && k < *n; k++ {
 				var l line
 				synctest.Test(t, func(t *testing.T) { l = scenarioCase(k) })
 				if err := enc.Encode(l); err != nil {
 					panic(err)
 				}
 			}
-			for i := 5; i < *n; i++ {
+			for i := 8; i < *n; i++ {
 				cs := r.next()
 				if cs == 0 {
 					cs = 1
